@@ -1,10 +1,40 @@
 /-
   C02 — Location set algebra equals position-set semantics; results are normalised.
-  (work in progress: theorems are added as their proofs land in BioCantor/Proofs/Alg*.lean)
+
+  Property theorems only (helper lemmas live in BioCantor/Proofs/Alg*.lean).  Every theorem has the shape
+      `Spec.okX input (ans (Model.fP input)) = true`
+  for ALL well-formed located inputs (`WFP`: what the constructors establish — any number of blocks, zero-length,
+  adjacent, nested and duplicate blocks included; any parent chain; end inside the parent's sequence), all strands
+  and all flag values.  `Spec.okX` (Spec/Algebra.lean) is the property clause as a decidable predicate on
+  (input, answer) pairs in position-set semantics; the same predicate is evaluated on the answers of the real library
+  by the check.  `ans` turns a result into the observable answer (`some v` / `none` = raised).
+
+  Two corners of the current code deviate from the property and are recorded as findings; the theorems exclude exactly
+  those inputs and a `decide`d witness shows that the modelled code deviates there:
+    * `EmptyArgQuirk a b ms`   (F-C02c)  receiver without parent, EmptyLocation argument, match_strand=True
+    * `OneSidedParent a b`     (F-C19j)  union with a parent-less receiver and an argument that has a parent
 -/
-import BioCantor.Spec.Algebra
-import BioCantor.Model.Algebra
+import BioCantor.Proofs.AlgOverlap
 namespace BioCantor.Props.C02
-open BioCantor
+open BioCantor BioCantor.Spec BioCantor.Model BioCantor.Proofs
+
+/-- T1: `has_overlap` ⇔ some position is covered by both operands (by both full spans with `full_span`), `False`
+    for incompatible parents and — under `match_strand` — different strands; `strict_parent_compare` turns
+    incompatible parents into a refusal. All layouts (self-overlapping included). -/
+theorem overlap_spec (a b : PLoc) (ha : WFP a) (hb : WFP b) (ms fs strict : Bool) (hq : ¬ EmptyArgQuirk a b ms) :
+    okOverlap a b ms fs strict (ans (hasOverlapP a b ms fs strict)) = true :=
+  hasOverlapP_ok a b ha hb ms fs strict hq
+
+/-- F-C02c witness: on the excluded corner the modelled code raises although the property demands `False`. -/
+theorem overlap_emptyArg_deviates :
+    okOverlap (.single (0, 5) .plus, []) (.empty, []) true false false
+      (ans (hasOverlapP (.single (0, 5) .plus, []) (.empty, []) true false false)) = false := by
+  decide
+
+-- non-vacuity of the hypotheses: a minus-strand layout with a zero-length block, a 0-bp gap and a nested block, on a
+-- parent with sequence and a grand-parent
+example : WFP (.compound ⟨[(0, 5), (2, 3), (5, 7), (5, 5)], .minus⟩,
+    [(some "chrA", none, some ['A', 'C', 'G', 'T', 'A', 'C', 'G']), (some "g1", none, none)]) := by decide
+example : ¬ EmptyArgQuirk (.single (0, 5) .plus, [(some "chrA", none, none)]) (.empty, []) true := by decide
 
 end BioCantor.Props.C02
